@@ -7,9 +7,12 @@ import (
 	"os"
 	"os/exec"
 	"path/filepath"
+	"runtime"
 	"sort"
+	"strconv"
 	"strings"
 	"sync"
+	"syscall"
 	"time"
 
 	"golang.org/x/tools/go/ssa"
@@ -453,10 +456,45 @@ var solvers = []solverSpec{
 	}},
 }
 
+var havePrlimit = func() bool { _, err := exec.LookPath("prlimit"); return err == nil }()
+
+// acquireSlot takes one of the machine-wide solver slots (advisory file locks shared by
+// every gvc process), so that checks running side by side do not oversubscribe the cores.
+func acquireSlot() func() {
+	dir := filepath.Join(os.TempDir(), "gvc-slots")
+	os.MkdirAll(dir, 0o777)
+	n := runtime.NumCPU() / 2
+	if v, err := strconv.Atoi(os.Getenv("GVC_SLOTS")); err == nil && v > 0 {
+		n = v
+	}
+	for {
+		for i := 0; i < n; i++ {
+			f, err := os.OpenFile(filepath.Join(dir, fmt.Sprintf("slot%d", i)), os.O_CREATE|os.O_RDWR, 0o666)
+			if err != nil {
+				return func() {}
+			}
+			if syscall.Flock(int(f.Fd()), syscall.LOCK_EX|syscall.LOCK_NB) == nil {
+				return func() { syscall.Flock(int(f.Fd()), syscall.LOCK_UN); f.Close() }
+			}
+			f.Close()
+		}
+		time.Sleep(40 * time.Millisecond)
+	}
+}
+
 func runSolver(ctx context.Context, sp solverSpec, file string, timeoutS int) (verdict, out string, dur float64) {
 	t0 := time.Now()
-	argv := sp.argv(file, timeoutS)
-	cctx, cancel := context.WithTimeout(ctx, time.Duration(timeoutS+2)*time.Second)
+	// The budget is CPU time (RLIMIT_CPU via prlimit), so that a loaded machine slows a
+	// query down without changing its verdict; the wall-clock cap is only a backstop.
+	wall := timeoutS*8 + 5
+	argv := sp.argv(file, wall)
+	if havePrlimit {
+		argv = append([]string{"prlimit", fmt.Sprintf("--cpu=%d", timeoutS)}, argv...)
+	} else {
+		wall = timeoutS + 2
+		argv = sp.argv(file, timeoutS)
+	}
+	cctx, cancel := context.WithTimeout(ctx, time.Duration(wall)*time.Second)
 	defer cancel()
 	cmd := exec.CommandContext(cctx, argv[0], argv[1:]...)
 	b, _ := cmd.CombinedOutput()
@@ -469,7 +507,7 @@ func runSolver(ctx context.Context, sp solverSpec, file string, timeoutS int) (v
 	case "timeout":
 		verdict = "timeout"
 	default:
-		if cctx.Err() != nil {
+		if cctx.Err() != nil || (cmd.ProcessState != nil && !cmd.ProcessState.Success() && strings.TrimSpace(out) == "") || strings.Contains(out, "Killed") {
 			verdict = "timeout"
 		} else if strings.Contains(out, "error") || strings.Contains(out, "Error") {
 			verdict = "error"
@@ -686,6 +724,8 @@ func (e *Engine) solveAll(obls []*Oblig, dir string, timeoutS, par int) {
 		go func() {
 			defer wg.Done()
 			defer func() { <-sem }()
+			release := acquireSlot()
+			defer release()
 			e.solve(o, dir, timeoutS, prelude)
 		}()
 	}
